@@ -175,6 +175,52 @@ def build_param_funcs(g):
     return plan
 
 
+def conversion_calls(g):
+    """explicit inputs for the conversion rows: integers just past / just before a rounding midpoint of the
+    target format by less than half an ulp of the NEXT wider format (a detour through double, or through
+    float, rounds them the other way), and the analogous doubles / long doubles for d2f, ld2f, ld2d"""
+    ints = set()
+    for e in range(24, 64):
+        for mant in (24, 53):
+            if e < mant:
+                continue
+            half = 1 << (e - mant)          # half an ulp of the target at 2^e
+            for base in ((1 << e), (1 << e) + (half << 1) * 3, (1 << e) + (half << 1) * 0x2A):
+                for d in (1, -1, 0):
+                    v = base + half + d
+                    if 0 < v < (1 << 64):
+                        ints.add(v)
+                        ints.add((-v) & M64)
+    ints = sorted(ints)
+    d = lambda x: struct.unpack("<Q", struct.pack("<d", x))[0]
+    dbl = []
+    for e in (0, 1, 10, -20, 100, -120):
+        for k in (1, 3, 0x155555):
+            m = (1 << 52) + (k << 29) + (1 << 28)      # exactly at a float midpoint
+            for dd in (1, -1, 0):
+                dbl.append(((e + 1023) << 52) | ((m + dd) & ((1 << 52) - 1)))
+    lds = []
+    for k in (1, 3, 0x2AAAAA):
+        for dd in (1, -1, 0):
+            lds.append(f"3fff{(1 << 63) + (k << 40) + (1 << 39) + dd:016x}")     # float midpoint +- 1 ld ulp
+            lds.append(f"3fff{(1 << 63) + (k << 11) + (1 << 10) + dd:016x}")     # double midpoint +- 1 ld ulp
+            lds.append(f"3fff{(1 << 63) + (k << 40) + (1 << 39) + (dd << 10):016x}")
+    plan = []
+    for fn, m in g.meta.items():
+        key = m["key"]
+        name = key[1] if key[0] == "fp" else key[2] if key[0] == "ptype" and len(key) == 3 else None
+        if not isinstance(name, str):
+            continue
+        name = name.upper()
+        if name in ("I2F", "UI2F", "I2D", "UI2D", "I2LD", "UI2LD") and (key[0] == "fp" or key[1] in ("i64", "u64", "p")):
+            plan += [f"call {fn} {m['sig']} {v:x}" for v in ints]
+        elif key[0] == "fp" and name in ("D2F", "D2LD"):
+            plan += [f"call {fn} {m['sig']} {v:x}" for v in dbl]
+        elif key[0] == "fp" and name in ("LD2F", "LD2D"):
+            plan += [f"call {fn} {m['sig']} {v}" for v in lds]
+    return plan
+
+
 def hard_fp_constants(cls, rng, n):
     """[(MIR literal, expected bits as the harness prints them)]: k + m*ulp(k) just above powers of two and round
     decimals (the values whose shortest round-trip representation needs 9 / 17 / 21 digits), extreme finite values,
@@ -290,6 +336,12 @@ def build_grid_funcs(rows, imms, rng=None, nhard=8):
             for what, bo, bno in flags:
                 g.add(("ov", o, short, what, 0), "ii_i", f"  {op} r, a, b\n  {bo} @t\n  mov r, 0\n  ret r\n@t:\n  mov r, 1\n  ret r", shape=bo)
                 g.add(("ov", o, short, what, 1), "ii_i", f"  {op} r, a, b\n  {bno} @t\n  mov r, 1\n  ret r\n@t:\n  mov r, 0\n  ret r", shape=bno)
+            # destination equal to a source: the emitted statements read the sources in some order around the store
+            for dst in ("a", "b"):
+                g.add(("ov", o, short, "res", 0, "dst=" + dst), "ii_i", f"  {op} {dst}, a, b\n  ret {dst}", locs="", shape="res dst=" + dst)
+                for what, bo, bno in flags:
+                    g.add(("ov", o, short, what, 0, "dst=" + dst), "ii_i", f"  {op} {dst}, a, b\n  {bo} @t\n  mov r, 0\n  ret r\n@t:\n  mov r, 1\n  ret r", shape=bo + " dst=" + dst)
+                    g.add(("ov", o, short, what, 1, "dst=" + dst), "ii_i", f"  {op} {dst}, a, b\n  {bno} @t\n  mov r, 1\n  ret r\n@t:\n  mov r, 0\n  ret r", shape=bno + " dst=" + dst)
     # narrow loads / stores in several address forms (engines must coincide; the documented narrow
     # load/store theorem is C02's)
     for t in ("i8", "u8", "i16", "u16", "i32", "u32", "i64", "u64", "p"):
@@ -469,6 +521,7 @@ def stage_templates(ck, st, rows, quick, viol):
     for fn, m in g.meta.items():
         plan.append(f"grid {fn} {m['sig']} {m['dom'] if m['fixed_b'] is None else 'any'}")
     plan += build_param_funcs(g)
+    plan += conversion_calls(g)
     text = g.text()
     rc, lines, err = st.engine(text, "\n".join(plan) + "\n", "grid", timeout=600)
     errs = [l for l in lines if l.startswith("E ")]
